@@ -4,6 +4,7 @@
 observation per op (`|`-separated): result class, pool ids, spend index, orphans, orphan index.
 See harness/p10/env.go and exec.go for the grammar (the Go side builds real transactions from the same line). -/
 import BV.C10.Model
+import BV.Generated.C10
 namespace BV.C10.Driver
 open BV.C10
 
@@ -16,7 +17,9 @@ def parseBool? (s : String) : Option Bool :=
 def parsePolicy? (s : String) : Option Policy :=
   match s.splitOn "," with
   | [ns, rr, mo, ms, mf, dp, fr] => do
-    pure ⟨← parseBool? ns, ← parseBool? rr, ← mo.toInt?, ← ms.toNat?, ← mf.toNat?, ← parseBool? dp, ← parseBool? fr⟩
+    -- the two relay-policy tuning constants are not part of the model: they come from the tree (regenerated facts)
+    pure ⟨← parseBool? ns, ← parseBool? rr, ← mo.toInt?, ← ms.toNat?, ← mf.toNat?, ← parseBool? dp, ← parseBool? fr,
+      BV.Generated.C10.minStandardTxNonWitnessSize.toNat, BV.Generated.C10.defaultBlockPrioritySize.toNat⟩
   | _ => none
 
 /-- input `txid.idx.seq[.recipe]` -/
@@ -126,15 +129,25 @@ def ids (l : List Nat) : String := if l.isEmpty then "-" else joinWith "," (l.ma
 
 def showResult : Result → String
   | .none => "-"
-  | .err r => "e:" ++ showRej r
+  | .err _ => "e"   -- which check rejected (and with which reject code) is not part of the property
   | .orphan => "orph"
   | .missing ps => "m:" ++ ids (sortNat ps).eraseDups
-  | .accepted l => "a:" ++ ids l
+  | .accepted l =>
+    -- the submitted transaction first; the order in which orphans followed is not part of the property
+    match l with
+    | [] => "a:-"
+    | h :: rest => "a:" ++ ids (h :: sortNat rest)
   | .checked fee vs cs => "k:" ++ toString fee ++ ":" ++ toString vs ++ ":" ++ ids (sortNat cs)
   | .badBlock => "bb"
 
+/-- `ProcessOrphans` returns only former orphans: no distinguished first element -/
+def showRes (o : Op) (r : Result) : String :=
+  match o, r with
+  | .processOrphans _ _, .accepted l => "a:" ++ ids (sortNat l)
+  | _, r => showResult r
+
 def showPool (s : Pool) : String :=
-  let p := (s.pool.mergeSort (fun a b => a.tx.id ≤ b.tx.id)).map (fun e => toString e.tx.id ++ "@" ++ toString e.height)
+  let p := (s.pool.mergeSort (fun a b => a.tx.id ≤ b.tx.id)).map (fun e => toString e.tx.id)
   let sp := (s.spent.mergeSort (fun a b => opLe a.1 b.1)).map (fun e => showOp e.1 ++ ">" ++ toString e.2.id)
   let o := (s.orphans.mergeSort (fun a b => a.1.id ≤ b.1.id)).map (fun e => toString e.1.id ++ "." ++ toString e.2)
   let bp := (s.byPrev.mergeSort (fun a b => if a.1 = b.1 then a.2.id ≤ b.2.id else opLe a.1 b.1)).map
@@ -190,14 +203,14 @@ def runCmds (pol : Policy) : State → List Cmd → List String
     -- recorded outcome is the order the implementation's map iteration took
     let cands := (contestedAll st.pool).eraseDups
     let orders := if cands.length ≤ 6 then permsF cands.length cands else [[]]
-    let obs := fun (p : List Nat) => let r := step pol st (mk p); showResult r.2 ++ ";" ++ showPool r.1.pool
+    let obs := fun (p : List Nat) => let r := step pol st (mk p); showRes (mk p) r.2 ++ ";" ++ showPool r.1.pool
     let p := (orders.find? (fun p => fnv64 (obs p) == digest)).getD []
     let r := step pol st (mk p)
-    (showResult r.2 ++ ";" ++ showPool r.1.pool) :: runCmds pol r.1 rest
+    (showRes (mk p) r.2 ++ ";" ++ showPool r.1.pool) :: runCmds pol r.1 rest
   | st, .op o :: rest =>
     let r := step pol st o
     if ambiguous st.pool r.1.pool o && (opPrio o).isEmpty then ["nd"]
-    else (showResult r.2 ++ ";" ++ showPool r.1.pool) :: runCmds pol r.1 rest
+    else (showRes o r.2 ++ ";" ++ showPool r.1.pool) :: runCmds pol r.1 rest
 
 /-- the state after all commands (choices as recorded; no `nd` handling: `par` lines have none) -/
 def finalState (pol : Policy) : State → List Cmd → State
